@@ -133,7 +133,7 @@ def fold(t, ctx, env=None, depth=0):
         raise NotConstant("comparison " + o)
     if op == "ite":
         return fold(t.a[1], ctx, env, depth + 1) if fold(t.a[0], ctx, env, depth + 1) else fold(t.a[2], ctx, env, depth + 1)
-    if op == "iter":
+    if op in ("iter", "idx"):
         key = t.id
         if key in env:
             return env[key]
@@ -253,6 +253,17 @@ def fold(t, ctx, env=None, depth=0):
                     out.append(fold(elt, ctx, e, depth + 1))
                 return
             it = iters[k]
+            if it.op == "call" and tm.callee_name(it.a[0]) == "builtins.enumerate" and it.a[1]:
+                # enumerate(X[, start]): the counter is the term idx(cid), the element iter(X, cid)
+                X = it.a[1][0]
+                st_t = it.a[1][1] if len(it.a[1]) > 1 else dict(it.a[2]).get("start")
+                st_v = fold(st_t, ctx, e, depth + 1) if st_t is not None else 0
+                for i_, v in enumerate(fold(X, ctx, e, depth + 1), int(st_v)):
+                    e2 = dict(e)
+                    e2[tm.mk("idx", cid).id] = i_
+                    e2[tm.mk("iter", X, cid).id] = v
+                    rec(k + 1, e2)
+                return
             # elements: zip of constant lists -> the comprehension binds iter(zarg_k, cid); plain iterables bind iter(it, cid)
             if it.op == "call" and tm.callee_name(it.a[0]) == "builtins.zip":
                 cols = [fold(a, ctx, e, depth + 1) for a in it.a[1]]
